@@ -3,6 +3,7 @@ package rules
 import (
 	"fmt"
 	"go/token"
+	"go/types"
 
 	"dtnverif/core"
 
@@ -286,6 +287,8 @@ func C11(p *core.Program, r *core.Report) {
 			r.Check(okW, "receiver/who-may-write/endFlag/"+fname(fn), "a transfer is finished only by a segment carrying the END flag", p.Pos(st.Pos()), "", "endFlag written elsewhere / without the SegmentEnd test")
 		})
 	}
+	checkNilResetFields(p, r, "pkg/cla/tcpclv4")
+
 	tb := p.Func(utilsPkg, "IncomingTransfer", "ToBundle")
 	for _, c := range core.CallsTo(tb, bp7+".Bundle.UnmarshalCbor") {
 		_, g := callGuard(core.DominatingConds(c.Block()), utilsPkg+".IncomingTransfer.IsFinished", true)
@@ -304,4 +307,110 @@ func isIntChan(v ssa.Value) bool {
 	_ = ch
 	_ = ok
 	return chanElemIsInt(v)
+}
+
+// checkNilResetFields — contradiction rule: a pointer field that some function
+// of the package resets to nil (the session's clean-up) can be nil whenever
+// another goroutine calls a method that uses it. Every use of such a field as a
+// method receiver outside the functions that reset or (re)assign it must be
+// dominated by a non-nil test of the very value loaded (a snapshot), so that a
+// call on a finished session returns an error instead of panicking.
+func checkNilResetFields(p *core.Program, r *core.Report, pkgRel string) {
+	pkg := p.Pkg(pkgRel)
+	type fieldKey struct {
+		owner *types.Named
+		field string
+	}
+	resetIn := map[fieldKey]map[*ssa.Function]bool{}
+	writersOf := map[fieldKey]map[*ssa.Function]bool{}
+	var funcs []*ssa.Function
+	for _, fn := range p.RepoFuncs() {
+		if fn.Pkg == pkg {
+			funcs = append(funcs, fn)
+		}
+	}
+	for _, fn := range funcs {
+		core.EachInstr(fn, func(in ssa.Instruction) {
+			st, ok := in.(*ssa.Store)
+			if !ok {
+				return
+			}
+			owner, field, ok := core.FieldOwner(st.Addr)
+			if !ok {
+				return
+			}
+			if _, isPtr := st.Val.Type().Underlying().(*types.Pointer); !isPtr {
+				return
+			}
+			k := fieldKey{owner, field}
+			if writersOf[k] == nil {
+				writersOf[k] = map[*ssa.Function]bool{}
+			}
+			writersOf[k][topFunc(fn)] = true
+			if core.IsNilConst(st.Val) {
+				if resetIn[k] == nil {
+					resetIn[k] = map[*ssa.Function]bool{}
+				}
+				resetIn[k][topFunc(fn)] = true
+			}
+		})
+	}
+	n := 0
+	for _, fn := range funcs {
+		core.EachInstr(fn, func(in ssa.Instruction) {
+			c, ok := in.(ssa.CallInstruction)
+			if !ok || c.Common().IsInvoke() || c.Common().StaticCallee() == nil || c.Common().StaticCallee().Signature.Recv() == nil || len(c.Common().Args) == 0 {
+				return
+			}
+			recv := c.Common().Args[0]
+			// the receiver is a load of the field, or a snapshot of it (load of a local that holds such a load)
+			ld := fieldLoadOf(recv)
+			if ld == nil {
+				return
+			}
+			owner, field, ok := core.FieldOwner(ld.X)
+			if !ok {
+				return
+			}
+			k := fieldKey{owner, field}
+			if resetIn[k] == nil || writersOf[k][topFunc(fn)] {
+				return // never reset, or used by the function that owns the field's life cycle
+			}
+			n++
+			okNil := false
+			for _, cd := range core.DominatingConds(in.Block()) {
+				if x, isNil, isCmp := core.NilCmp(cd); isCmp && !isNil && (x == recv || core.SameLoad(x, recv)) {
+					okNil = true
+				}
+			}
+			r.Check(okNil, fmt.Sprintf("nil-reset/%s.%s/%s", owner.Obj().Name(), field, fname(fn)), "a field that the session's clean-up resets to nil is used by other methods only behind a non-nil test of the value loaded: a call on a finished session returns an error, it does not panic", p.Pos(in.Pos()), "", "method called on "+owner.Obj().Name()+"."+field+" without a nil test; the field is reset to nil in another goroutine when the session ends (the manager still lists the adapter as a sender until it processed the peer's disappearance)")
+		})
+	}
+	r.Count("uses of nil-reset fields outside their owners ("+pkgRel+")", n)
+	r.Min("uses of nil-reset fields outside their owners ("+pkgRel+")", 1)
+}
+
+// fieldLoadOf returns the load *(&x.f) that v is, or that the local variable v was loaded from holds.
+func fieldLoadOf(v ssa.Value) *ssa.UnOp {
+	u, ok := v.(*ssa.UnOp)
+	if !ok || u.Op != token.MUL {
+		return nil
+	}
+	if _, isFA := u.X.(*ssa.FieldAddr); isFA {
+		return u
+	}
+	if a, isAlloc := u.X.(*ssa.Alloc); isAlloc {
+		var src *ssa.UnOp
+		for _, ref := range *a.Referrers() {
+			if st, ok := ref.(*ssa.Store); ok && st.Addr == ssa.Value(a) {
+				if x := fieldLoadOf(st.Val); x != nil {
+					src = x
+				} else {
+					return nil
+				}
+			}
+		}
+		return src
+	}
+	return nil
 }
